@@ -275,9 +275,15 @@ func c17rJudge(script string, raw *conformancev1.RawHTTPResponse, obs c17rObs) (
 		if obs.Status != wantStatus {
 			add("raw-response:status", "status %d on the wire, %d specified (0 = 200)", obs.Status, raw.GetStatusCode())
 		}
+		hdrEntries, trlEntries := c17lib.Entries(raw.GetHeaders()), c17lib.Entries(raw.GetTrailers())
 		for name, vals := range rawHeaders {
+			// every given value, in list order - also when the name occurs in several entries
 			if got := obs.Header.Values(name); !c17lib.EqualStrings(got, vals) {
-				add("raw-response:header-missing-or-wrong", "header %s: got %q, specified %q", name, got, vals)
+				if hdrEntries[name] > 1 {
+					add("raw-response:header-named-in-several-entries", "header %s is named in %d entries of the list: got %q, specified %q (all values, in list order)", name, hdrEntries[name], got, vals)
+				} else {
+					add("raw-response:header-missing-or-wrong", "header %s: got %q, specified %q", name, got, vals)
+				}
 			}
 		}
 		if got := obs.Header.Values(c17rHandlerHeader); len(got) > 0 {
@@ -304,6 +310,8 @@ func c17rJudge(script string, raw *conformancev1.RawHTTPResponse, obs c17rObs) (
 				case c17lib.EqualStrings(got, vals):
 				case len(rawHeaders[name]) > 0 && c17lib.EqualStrings(got, append(append([]string{}, vals...), rawHeaders[name]...)):
 					add("raw-response:trailer-repeats-header-values", "trailer %s: got %q, specified %q: the values of the response HEADER of the same name were sent again as trailer values", name, got, vals)
+				case trlEntries[name] > 1:
+					add("raw-response:trailer-named-in-several-entries", "trailer %s is named in %d entries of the list: got %q, specified %q (all values, in list order; all trailers received: %v)", name, trlEntries[name], got, vals, obs.Trailer)
 				case len(got) < len(vals):
 					add("raw-response:trailer-missing", "trailer %s: got %q, specified %q (all trailers received: %v)", name, got, vals, obs.Trailer)
 				default:
@@ -402,7 +410,8 @@ func c17rEnvs(full bool, level int) []c17rEnv {
 	if !full {
 		hl, tl := c17lib.HeaderLists(0), c17lib.TrailerLists(0)
 		if level == 0 {
-			return []c17rEnv{{0, nil, nil}, {0, hl[2], tl[2]}, {404, nil, tl[2]}, {404, hl[2], nil}}
+			// hl[4], tl[3], tl[4]: a name in two entries of the list
+			return []c17rEnv{{0, nil, nil}, {0, hl[2], tl[2]}, {404, nil, tl[2]}, {404, hl[2], nil}, {0, hl[4], tl[3]}, {404, hl[3], tl[4]}}
 		}
 		for _, st := range []uint32{0, 404} {
 			for _, h := range [][]*conformancev1.Header{hl[0], hl[2]} {
@@ -411,6 +420,8 @@ func c17rEnvs(full bool, level int) []c17rEnv {
 				}
 			}
 		}
+		// a name in two entries of the header / trailer list (same spelling, case variants)
+		out = append(out, c17rEnv{0, hl[4], tl[3]}, c17rEnv{404, hl[3], tl[4]}, c17rEnv{0, nil, tl[3]}, c17rEnv{404, hl[4], nil})
 		return out
 	}
 	for _, st := range []uint32{0, 200, 204, 404, 500} {
@@ -520,7 +531,7 @@ func c17rEnumerate(thorough bool, visit func(grid, proto, script string, raw *co
 func TestVerifC17RawResponse(t *testing.T) {
 	r := rep.New("c17-rawresp")
 	defer r.Write()
-	r.Rule = "case = (protocol h1|h2tls|h2c) x (handler script over H,T,W,B,F,R) x (RawHTTPResponse: status x header list x trailer list x body none|unary|stream); grid S = all scripts up to length 3 (quick) / 4 (thorough) x 8 definitions, grid E = all status x header x trailer combinations x medium body set x 2-4 scripts, grid B (thorough) = full body alphabet x 4 status/header/trailer combinations x 2 scripts; a case is non-trivial when distinct (proto, script, definition); oracle = reference arbitration model + independent body decoder on what a plain net/http client receives"
+	r.Rule = "case = (protocol h1|h2tls|h2c) x (handler script over H,T,W,B,F,R) x (RawHTTPResponse: status x header list x trailer list (incl. lists that name the same header / trailer in two entries, same spelling or differing in case: all values demanded in list order) x body none|unary|stream); grid S = all scripts up to length 3 (quick) / 4 (thorough) x 8 definitions, grid E = all status x header x trailer combinations x medium body set x 2-4 scripts, grid B (thorough) = full body alphabet x 6 status/header/trailer combinations x 2 scripts; a case is non-trivial when distinct (proto, script, definition); oracle = reference arbitration model + independent body decoder on what a plain net/http client receives"
 
 	servers := c17rStart(rawResponder(http.HandlerFunc(c17rInner)))
 	defer func() {
